@@ -1,6 +1,7 @@
 package props
 
 import (
+	"bufio"
 	"bytes"
 	stdflate "compress/flate"
 	"errors"
@@ -269,3 +270,5 @@ func stdDictRoundTripBroken(level int, dict, data []byte, ops []gen.Op) bool {
 	out, err := io.ReadAll(stdflate.NewReaderDict(bytes.NewReader(b.Bytes()), dict))
 	return err != nil || !bytes.Equal(out, data)
 }
+
+func newBufio(r io.Reader, size int) *bufio.Reader { return bufio.NewReaderSize(r, size) }
